@@ -73,7 +73,10 @@ class Contrib:
         self.coef = coef
         self.factors = tuple(sorted(factors, key=repr))
         self.domains = tuple(sorted(set(domains), key=repr))
-        self.guards = tuple(sorted({canon_guard(g) for g in guards}, key=repr))
+        gs = {canon_guard(g) for g in guards}
+        # skip-if (a and b) never fires where another guard in force says `not a` (or `not b`)
+        gs = {g for g in gs if not (g[0] == 'skip' and g[1][0] == 'and' and any(canon_guard(K('skip', x)) in gs for x in g[1][1:]))}
+        self.guards = tuple(sorted(gs, key=repr))
 
     def key(self):
         return (self.coef, self.factors, self.domains, self.guards)
@@ -119,6 +122,8 @@ def render(k):
         return f'({render(k[2])} {k[1]} {render(k[3])})'
     if t == 'not':
         return f'not {render(k[1])}'
+    if t in ('and', 'or'):
+        return '(' + f' {t} '.join(render(x) for x in k[1:]) + ')'
     if t in ('badratio', 'badlog', 'baddisp', 'badcount'):
         return f'{t.upper()}[{", ".join(render(x) for x in k[1:])}]'
     return f'{t}(' + ', '.join(render(x) for x in k[1:]) + ')'
@@ -166,6 +171,12 @@ class Interp:
             vals = [self.ev(v, env) for v in e.values]
             if all(v[0] == 'flag' for v in vals):
                 return K('flag', all(v[1] for v in vals) if isinstance(e.op, ast.And) else any(v[1] for v in vals))
+            is_and = isinstance(e.op, ast.And)
+            if any(v[0] == 'flag' and v[1] != is_and for v in vals):
+                return K('flag', not is_and)        # a False conjunct / a True disjunct decides
+            rest = [v for v in vals if v[0] != 'flag']
+            if all(v[0] == 'cmp' for v in rest):
+                return rest[0] if len(rest) == 1 else K('and' if is_and else 'or', *rest)
             raise Unknown(f'boolean combination {ast.unparse(e)[:60]}', e)
         if isinstance(e, ast.Tuple):
             return K('tuple', *[self.ev(x, env) for x in e.elts])
@@ -341,13 +352,17 @@ class Interp:
             if len(args) == 1 and args[0][0] == 'cnt' and args[0][2][0] == 'idx' and args[0][2][1][0] == 'vals' and args[0][2][1][1] == args[0][1]:
                 # range(size of the stratum B = i): positions inside the stratum's row list
                 return K('range', K('rowpos', args[0][1], args[0][2]))
-            self.defect('badrange', e, f'loop range {ast.unparse(e)} does not cover the complete index domain (a class / stratum is dropped from the sum)')
             doms = [x for a in args for x in _walk(a) if isinstance(x, tuple) and x and x[0] == 'len']
             if doms:
+                # a range built from the size of a table of values, but not the whole of it (len - 1, 1 .. len): a class / stratum is dropped for sure
+                self.defect('badrange', e, f'loop range {ast.unparse(e)} does not cover the complete index domain (a class / stratum is dropped from the sum)')
                 return K('range', doms[0][1])
-            return K('badrange', *args)
+            # a loop over something else (the rows of a vector, a window of positions): not one of the index domains of the sum
+            raise Unknown(f'loop range {ast.unparse(e)[:60]}', e)
         if d == 'enumerate' and len(args) == 1:
             return K('enum', args[0])
+        if d == 'zip' and len(args) >= 2 and not e.keywords:
+            return K('zip', *args)
         if d.endswith('.numba_unique') and len(args) == 1:
             if args[0][0] != 'vec':
                 raise Unknown(f'histogram of {render(args[0])}', e)
@@ -603,6 +618,17 @@ class Interp:
             elif it[0] == 'rowpos' and isinstance(s.target, ast.Name):
                 dom = K('idx', it)
                 env[s.target.id] = K('rowelem', it[1], it[2])
+            elif it[0] == 'jarr' and isinstance(s.target, ast.Name):
+                dom = K('idx', K('vals', it[1]))
+                env[s.target.id] = K('jcnt', it[1], dom, it[2], it[3], it[4])
+            elif it[0] == 'zip' and isinstance(s.target, ast.Tuple) and len(s.target.elts) == len(it) - 1 and all(isinstance(x, ast.Name) for x in s.target.elts):
+                # parallel arrays over the same complete domain: the values / counts of one histogram, the per-class joint counts of one stratum
+                doms = {K('idx', K('vals', a[1])) if a[0] in ('vals', 'cnts', 'jarr') else None for a in it[1:]}
+                if len(doms) != 1 or None in doms:
+                    raise Unknown(f'loop over {render(it)}', s)
+                dom = next(iter(doms))
+                for x, a in zip(s.target.elts, it[1:]):
+                    env[x.id] = K('val', a[1], dom) if a[0] == 'vals' else K('cnt', a[1], dom) if a[0] == 'cnts' else K('jcnt', a[1], dom, a[2], a[3], a[4])
             elif it[0] == 'vec' and isinstance(s.target, ast.Name):
                 raise Unknown('loop over the elements of a code vector', s)
             else:
@@ -653,6 +679,11 @@ class Interp:
                 self.block(s.body if c[1] else s.orelse, env, st)
                 return
             if len(s.body) == 1 and isinstance(s.body[0], ast.Continue) and not s.orelse:
+                if c[0] == 'or':
+                    # skip if a or b  =  skip if a; skip if b
+                    for x in c[1:]:
+                        st['guards'].append(K('skip', x))
+                    return
                 st['guards'].append(K('skip', c))
                 return
             if len(s.body) == 1 and isinstance(s.body[0], ast.Break) and not s.orelse and st.get('loops'):
@@ -660,6 +691,14 @@ class Interp:
                 return
             if any(isinstance(x, (ast.Continue, ast.Break, ast.Return)) for b in s.body + s.orelse for x in ast.walk(b)):
                 raise Unknown('early exit inside a guarded block', s)
+            if c[0] in ('and', 'or'):
+                if c[0] == 'or' or s.orelse:
+                    raise Unknown(f'guarded block under {render(c)[:80]}', s)
+                for x in c[1:]:
+                    st['guards'].append(x)
+                self.block(s.body, env, st)
+                del st['guards'][-(len(c) - 1):]
+                return
             st['guards'].append(c)
             self.block(s.body, env, st)
             st['guards'].pop()
